@@ -13,7 +13,7 @@ BUILT = {
          "Walker written from the specifications' first-entry offsets and type/length field positions; visits must equal the added entries (offset, length, type) and every count/offset/string-length field must agree with the walk.",
          "trusted: walker's reading of ACPI 6.5 / CXL 3.0 / RISC-V RHCT-RIMT-RQSC layouts (Appendix A of DESIGN.md)"),
  "C04": ("tables", "reference-model monitor: byte-for-byte comparison with an independent offset-addressed reference encoder",
-         "Every observed image equals the encoding produced by a reference encoder written from the specifications (Appendix A), for boundary-biased and distinguishing argument values, all enum variants and Option shapes.",
+         "Every observed image equals the encoding produced by a reference encoder written from the specifications (Appendix A), for boundary-biased and distinguishing argument values, all enum variants and Option shapes; also GAS, GenericAddress, the generic error status block and the generic error data entry.",
          "trusted: Appendix A layouts; crate's documented free choices (revisions, creator id, VIOT endpoint start, RIMT draft layout) pinned and listed as assumptions"),
  "C05": ("tables", "handle monitor: handles read back by probe serialisation vs offsets found by the independent walker; reference fields resolved in every image",
          "Every returned handle equals the offset at which the reference/walker places that node, for random interleavings of handle-returning and other adds; every reference field resolves to a node of the expected type in each intermediate and final image.",
@@ -47,10 +47,10 @@ BUILT = {
          "Bounded-exhaustive sequences over a 72-operation alphabet from 4 initial lengths (incl. Length pre-set writes), random histories up to 300 ops incl. multi-KiB high-valued slices and usize::MAX offsets; refused writes must leave the table unchanged; thorough adds a Miri stage.",
          "trusted: 30-line byte-vector model; pushing zero bytes through the sink is not an append"),
  "C15": ("aml", "differential monitor between alternative construction paths of the real crate",
-         "Scope::raw vs Scope::new for body sizes 0..4200 exhaustively x 6 path shapes (+2^20 neighbourhood in thorough) and generated child lists; PackageBuilder vs Package::new for 0..255 generated elements; &'static str vs String; usize vs u64.",
+         "Scope::raw vs Scope::new for body sizes 0..4200 exhaustively x 6 path shapes (+2^20 neighbourhood in thorough) and generated child lists; scopes of 256..700 children; PackageBuilder vs Package::new for 0..255 generated elements (incl. zero-byte elements); &'static str vs String; usize vs u64.",
          "trusted: nothing beyond byte equality"),
  "C16": ("scalar", "specification decompression / inverse ToUUID applied to the emitted constants; refusal monitor for malformed strings",
-         "Every EISA character position exhaustively + 10^6 random ids (all 26^3*16^4 in thorough); every UUID nibble x 16 digits x both cases + random; malformed strings must panic.",
+         "Every EISA character position exhaustively + 10^6 random ids (all 26^3*16^4 in thorough); every UUID nibble x 16 digits x both cases + random; malformed strings must panic: every non-hex / non-separator ASCII byte at every position, moved separators, non-ASCII look-alike characters at every position, wrong lengths.",
          "trusted: spec EISAID and ToUUID rules (self-tested on PNP0501/PNP0A06 and the PCI _DSM UUID)"),
  "C17": ("model", "reference-model monitor: i128 running sum vs raw_value after every operation; exhaustive state x byte x entry point",
          "All 256 states x 256 bytes x 5 single-byte entry points with inverse pairs; random histories of slice/byte/sink operations.",
